@@ -47,7 +47,7 @@ def foreign_line(ident, shape, fc, batches):
     return "%s foreign %s %s %d %s" % (ident, shape.name, file_choice_tokens(fc), len(batches), b)
 
 
-def gen_batches(rng, shape, maxrecs=10, maxlist=3):
+def gen_batches(rng, shape, maxrecs=10, maxlist=3, allow_empty=False):
     n = rng.randrange(1, maxrecs + 1)
     recs = [S.gen_value(rng, shape.model_fields(), maxlist=maxlist, extreme=0.4) for _ in range(n)]
     out, cur = [], []
@@ -58,6 +58,10 @@ def gen_batches(rng, shape, maxrecs=10, maxlist=3):
             cur = []
     if cur:
         out.append(cur)
+    # a conformant file may hold row groups with no rows (in the middle, first or last)
+    if allow_empty and rng.random() < 0.25:
+        for _ in range(rng.randrange(1, 3)):
+            out.insert(rng.randrange(len(out) + 1), [])
     return out
 
 
